@@ -269,6 +269,61 @@ example : (10 : Nat) % 2 = 0 ∧ digitsB 10 (125 + 1) 125 ≤ 4 ∧
     simplestFromFBig Quirks.code simplerSpec .halfEven 10 125 (-2) 4 = .ok (some ⟨5, 4⟩) := by
   decide
 
+/-- value of a width of `errorBoundsFBig`: `w` units of `b^(e−1)/2` -/
+theorem errWidth_val (b : Nat) (hb : 2 ≤ b) (e w : Int) :
+    (⟨(scaleQ w b (e - 1)).num, (scaleQ w b (e - 1)).den * 2⟩ : Q).val =
+      (w : Rat) * ((b : Rat) ^ (e - 1) / 2) := by
+  obtain ⟨hv, hd⟩ := scaleQ_val w b hb (e - 1)
+  rw [Q.val_def] at hv
+  have hd' : ((scaleQ w b (e - 1)).den : Rat) ≠ 0 := by exact_mod_cast (by omega : (scaleQ w b (e - 1)).den ≠ 0)
+  rw [Q.val_mk]
+  push_cast
+  rw [mul_div_assoc', ← hv]
+  field_simp
+
+/-- **`ErrorBounds::error_bounds`, required behaviour** (`errorBoundsFBig Quirks.none`, the function the
+    driver prints for op `eb.bounds`; every mode, base `b ≥ 2`, limited precision, float of at most `p`
+    digits): `|f| − (width on the side towards zero)` and `|f| + (width on the side away from zero)`
+    are exactly the two ends of the table `roundingSet Quirks.none`, with its inclusion flags — the set
+    that `fbig_model_set_is_rounding_set` / `fbig_rounding_set_exact` prove to be the set of numbers
+    rounding to `f`; for a negative float `L` and `R` (and the flags) change sides.  The code's tables
+    differ from this on the recorded finding's class (`Props/C18Gen.error_bounds_model_is_tables`). -/
+theorem error_bounds_required_is_rounding_set (mode : RMode) (b : Nat) (hb : 2 ≤ b)
+    (signif exp : Int) (p : Nat) (hp : p ≠ 0)
+    (hn : ¬ digitsB b (signif.natAbs + 1) signif.natAbs > p) :
+    ∃ L R iL iR, errorBoundsFBig Quirks.none false mode b signif exp p = .ok (some (L, R, iL, iR)) ∧
+      (let neg := decide (signif < 0)
+       let S := signif.natAbs * b ^ (p - digitsB b (signif.natAbs + 1) signif.natAbs)
+       let e : Int := exp - (p - digitsB b (signif.natAbs + 1) signif.natAbs : Nat)
+       let r := roundingSet Quirks.none mode b p neg S (decide (signif.natAbs % 2 = 1))
+       let sc : Rat := (b : Rat) ^ (e - 1) / 2
+       let c : Rat := ((2 * b * S : Nat) : Rat) * sc
+       if neg then (c - R.val = (r.1 : Rat) * sc ∧ c + L.val = (r.2.1 : Rat) * sc ∧
+                    iR = r.2.2.1 ∧ iL = r.2.2.2)
+       else (c - L.val = (r.1 : Rat) * sc ∧ c + R.val = (r.2.1 : Rat) * sc ∧
+             iL = r.2.2.1 ∧ iR = r.2.2.2)) := by
+  unfold errorBoundsFBig
+  simp only [if_neg hp, if_neg hn]
+  generalize signif.natAbs * b ^ (p - digitsB b (signif.natAbs + 1) signif.natAbs) = S
+  generalize exp - ((p - digitsB b (signif.natAbs + 1) signif.natAbs : Nat) : Int) = e
+  generalize roundingSet Quirks.none mode b p (decide (signif < 0)) S
+    (decide (signif.natAbs % 2 = 1)) = r
+  obtain ⟨loN, hiN, iLo, iHi⟩ := r
+  by_cases hneg : signif < 0
+  · simp only [hneg, decide_true, if_true]
+    refine ⟨_, _, _, _, rfl, ?_⟩
+    simp only [errWidth_val b hb, and_true]
+    constructor <;> (push_cast; ring)
+  · simp only [hneg, decide_false, Bool.false_eq_true, if_false]
+    refine ⟨_, _, _, _, rfl, ?_⟩
+    simp only [errWidth_val b hb, and_true]
+    constructor <;> (push_cast; ring)
+
+-- non-vacuity: HalfAway, base 3, −1 at precision 2 (S = 3 = b^(p−1): finer spacing towards zero): L = 1/6, R = 1/18
+example : (2 : Nat) ≠ 0 ∧ ¬ digitsB 3 (1 + 1) 1 > 2 ∧
+    errorBoundsFBig Quirks.none false .halfAway 3 (-1) 0 2 = .ok (some (⟨3, 18⟩, ⟨1, 18⟩, false, true)) := by
+  decide
+
 /-- **`RBig::simplest_from_float`, special inputs** (the function the driver executes,
     `rbigSimplestFromFloat`; every mode, base, precision, and every setting of the deviation
     switches): `None` exactly for an infinite float (`Repr::is_infinite`: significand 0 and exponent
@@ -282,23 +337,17 @@ theorem simplest_from_fbig_none_iff_infinite (k : Quirks) (simpler : Q → Q →
    rbigSimplestFromFloat_zero k simpler mode b p⟩
 
 /-- **unlimited precision (context precision 0) ⇒ the number itself**: for every base `b ≥ 2`,
-    every mode, every non-zero float `signif·b^exp` the required result is the reduced fraction of
-    exactly that value; the code does the same under `Zero`, `HalfAway`, `HalfEven`, and panics
-    (`f.ulp()` of an unlimited-precision float: recorded finding) under `Away`, `Up`, `Down`. -/
-theorem simplest_from_fbig_unlimited (simpler : Q → Q → Bool) (mode : RMode) (b : Nat) (hb : 2 ≤ b)
-    (signif exp : Int) (hs : signif ≠ 0) :
-    (∃ r, rbigSimplestFromFloat Quirks.none simpler mode b signif exp 0 = .ok (some (some r)) ∧
-      Reduced r ∧ r.val = (signif : Rat) * (b : Rat) ^ exp) ∧
-    ((mode = .zero ∨ mode = .halfAway ∨ mode = .halfEven) →
-      rbigSimplestFromFloat Quirks.code simpler mode b signif exp 0 =
-        rbigSimplestFromFloat Quirks.none simpler mode b signif exp 0) ∧
-    ((mode = .away ∨ mode = .up ∨ mode = .down) →
-      rbigSimplestFromFloat Quirks.code simpler mode b signif exp 0 = .error .unlimitedPrecision) := by
-  refine ⟨rbigSimplestFromFloat_unlimited Quirks.none simpler mode b hb signif exp hs (Or.inl rfl),
-    fun hm => ?_, rbigSimplestFromFloat_unlimited_code_panics simpler mode b signif exp hs⟩
-  obtain ⟨r1, h1, _, v1⟩ := rbigSimplestFromFloat_unlimited Quirks.code simpler mode b hb signif exp hs (Or.inr hm)
-  obtain ⟨r2, h2, _, v2⟩ := rbigSimplestFromFloat_unlimited Quirks.none simpler mode b hb signif exp hs (Or.inl rfl)
-  rcases hm with rfl | rfl | rfl <;> rfl
+    every mode, every non-zero float `signif·b^exp` and EVERY setting of the deviation switches (the
+    required behaviour and the code alike: `simplest_from_float` returns the exact value before it
+    asks `R::error_bounds`) the result is the reduced fraction of exactly that value — the only number
+    that rounds to an exact float.  (Before the round-6 repair the code panicked under `Away`, `Up`,
+    `Down`, and since /repo 164990d returned the float rounded to one digit under the other modes;
+    witnesses corpus/C18/simplest_from_fbig_unlimited.case.) -/
+theorem simplest_from_fbig_unlimited (k : Quirks) (simpler : Q → Q → Bool) (mode : RMode) (b : Nat)
+    (hb : 2 ≤ b) (signif exp : Int) (hs : signif ≠ 0) :
+    ∃ r, rbigSimplestFromFloat k simpler mode b signif exp 0 = .ok (some (some r)) ∧
+      Reduced r ∧ r.val = (signif : Rat) * (b : Rat) ^ exp :=
+  rbigSimplestFromFloat_unlimited k simpler mode b hb signif exp hs
 
 /-- the driver's entry point on ordinary input is the finite body the main theorem is about -/
 theorem simplest_from_fbig_entry (k : Quirks) (simpler : Q → Q → Bool) (mode : RMode)
@@ -307,11 +356,12 @@ theorem simplest_from_fbig_entry (k : Quirks) (simpler : Q → Q → Bool) (mode
       (simplestFromFBig k simpler mode b signif exp p).map (Option.map some) :=
   rbigSimplestFromFloat_finite k simpler mode b signif exp p hs
 
--- +inf = (0, 1), −inf = (0, −1) ↦ None;  DBig 1.25 of unlimited precision ↦ 5/4 (mode Up: required)
+-- +inf = (0, 1), −inf = (0, −1) ↦ None;  DBig 1.25 of unlimited precision ↦ 5/4 (mode Up, mode HalfEven; code = required)
 example : rbigSimplestFromFloat Quirks.code simplerSpec .up 10 0 1 0 = .ok (some none) ∧
     rbigSimplestFromFloat Quirks.code simplerSpec .halfEven 2 0 (-1) 7 = .ok (some none) ∧
     rbigSimplestFromFloat Quirks.none simplerSpec .up 10 125 (-2) 0 = .ok (some (some ⟨5, 4⟩)) ∧
-    rbigSimplestFromFloat Quirks.code simplerSpec .up 10 125 (-2) 0 = .error .unlimitedPrecision := by
+    rbigSimplestFromFloat Quirks.code simplerSpec .up 10 125 (-2) 0 = .ok (some (some ⟨5, 4⟩)) ∧
+    rbigSimplestFromFloat Quirks.code simplerSpec .halfEven 10 125 (-2) 0 = .ok (some (some ⟨5, 4⟩)) := by
   decide
 
 example : nextUpDown true ⟨853, 113⟩ 10 = .ok (some ⟨68, 9⟩) := by decide
